@@ -139,7 +139,8 @@ void h_enq(void) {
   XV_OBL("scq.enqueue.appends", r == ra);
   XV_OBL("scq.enqueue.appends", represents(&q, &b, &H, &gap));
   XV_OBL("scq.enqueue.appends", H == in_H && q.xv_alloc == N);
-  XV_OBL("scq.finalized.stable", (q._tail & 1) == in_fin);
+  if (Finalizable && in_fin) XV_OBL("scq.enqueue.finalized_fails", !r);            /* enqueue<.,true> on a finalized ring always fails ... */
+  XV_OBL("scq.enqueue.finalized_fails", (q._tail & 1) == in_fin);                 /* ... and enqueue never clears (or sets) the finalized bit */
   if (r) { XV_OBL("scq.enqueue.appends", gap == in_gap); XV_CANARY("enq.appended"); if (in_cnt == CAP - 1) XV_CANARY("enq.last_free"); }
   else {
     XV_OBL("scq.enqueue.appends", gap == in_gap + 1);
@@ -158,7 +159,7 @@ void h_deq(void) {
   _Bool ra = abs_dequeue(&b, &outa);
   uint64_t H, gap; _Bool rep = represents(&q, &b, &H, &gap);
   XV_OBL("scq.dequeue.empty_iff", r == ra);
-  XV_OBL("scq.finalized.stable", (q._tail & 1) == in_fin);
+  XV_OBL("scq.catchup.keeps_finalized", (q._tail & 1) == in_fin);
   if (r) {
     XV_OBL("scq.dequeue.takes_first", out == outa);
     XV_OBL("scq.dequeue.takes_first", rep && H == in_H + 1 && gap == in_gap);
@@ -203,7 +204,7 @@ void h_catchup(void) {
   uint64_t d0 = q._data[0], th0 = q._threshold;
   scq_catchup(&q, q._tail, q._head);
   XV_OBL("scq.catchup.restores", (q._tail >> 1) == hp && q._head == hp << 1 && q._data[0] == d0 && q._threshold == th0);
-  XV_OBL("scq.finalized.stable", (q._tail & 1) == fin);
+  XV_OBL("scq.catchup.keeps_finalized", (q._tail & 1) == fin);
 #if Finalizable
   if (fin) XV_CANARY("catchup.finalized");
 #endif
@@ -218,7 +219,7 @@ void h_catchup(void) {
  * This is what the strict cycle comparison and the `unsafe => head <= tail` test of enqueue are for. */
 _Bool in_lifted;
 void h_enq_overtaken(void) {
-  struct scq q; struct ring_abs b; havoc_ring(&q); havoc_inputs(); in_op = 0;
+  struct scq q; struct ring_abs b; havoc_ring(&q); havoc_inputs(); in_op = 2;
   XV_ASSUME(in_cnt == 0 && !in_fin && in_gap == 0);
   build(&q);
   in_lifted = nondet_bool();
@@ -239,11 +240,12 @@ void h_enq_overtaken(void) {
  * Mid-operation state: abstractly empty at head = tail = H, but slot(H) still holds (cycle(H-N), v0): the dequeuer that owns head ticket
  * H-N has not consumed it yet.  The dequeue with ticket H must leave the value alone, clear its safe bit (so that, once v0 is consumed,
  * an enqueuer holding tail ticket H cannot publish behind the head) and report empty. */
+uint64_t in_stale_v;
 void h_deq_stale(void) {
-  struct scq q; havoc_ring(&q); havoc_inputs(); in_op = 1;
+  struct scq q; havoc_ring(&q); havoc_inputs(); in_op = 3;
   XV_ASSUME(in_cnt == 0 && !in_fin && in_gap == 0 && in_th >= 0 && in_H >= N);
   build(&q);
-  unsigned s = (unsigned)scq_remap_index(in_H << 1, RS(), N); uint64_t v0 = nondet_u64(); XV_ASSUME(v0 < CAP);
+  unsigned s = (unsigned)scq_remap_index(in_H << 1, RS(), N); uint64_t v0 = in_stale_v = nondet_u64(); XV_ASSUME(v0 < CAP);
   uint64_t old = ((((in_H - N) << 1) | MASK) & ~MASK) | (in_safe[s] ? N : 0) | v0;
   q._data[s] = old;
   uint64_t out0 = nondet_u64(), out = out0;
